@@ -2081,12 +2081,14 @@ func (ls *LState) Resume(th *LState, fn *LFunction, args ...LValue) (ResumeState
 	return ResumeYield, nil, ret
 }
 
-// coverPendingResults keeps the registers that the pending yield's call
-// assigns (local a, b, c = coroutine.yield()) below the register top when the
-// resume supplied fewer values: a call made from Go (a metamethod, an iterator)
-// builds its frame at the top and would run over them.
+// coverPendingResults adjusts the values of a resume to the number the
+// pending yield's call assigns (local a, b, c = coroutine.yield()), like a
+// return does: the register top ends right above them. With fewer values a
+// call made from Go (a metamethod, an iterator) would otherwise build its frame
+// over the missing ones; with more, `return (coroutine.yield())` would return
+// them all.
 func (ls *LState) coverPendingResults() {
-	if ls.resumeTop > ls.reg.Top() {
+	if ls.resumeTop > 0 {
 		ls.reg.SetTop(ls.resumeTop)
 	}
 	ls.resumeTop = 0
